@@ -11,7 +11,19 @@ import (
 // RunFzf runs the fzf binary built from /repo's working tree (c.Fzf) non-interactively.
 // Returns stdout, stderr, exit code (-1 on timeout / start failure).
 func RunFzf(c *Ctx, args []string, stdin []byte, env ...string) (string, string, int) {
-	ctx, cancel := context.WithTimeout(context.Background(), 30*time.Second)
+	// a process that could not be STARTED (fork/exec failing on an overloaded machine) says nothing about fzf:
+	// it is started again, a few times, before -1 is returned
+	for try := 0; ; try++ {
+		out, errs, code, started := runFzfOnce(c, args, stdin, env...)
+		if started || try >= 4 {
+			return out, errs, code
+		}
+		time.Sleep(time.Duration(200*(try+1)) * time.Millisecond)
+	}
+}
+
+func runFzfOnce(c *Ctx, args []string, stdin []byte, env ...string) (string, string, int, bool) {
+	ctx, cancel := context.WithTimeout(context.Background(), 60*time.Second)
 	defer cancel()
 	cmd := exec.CommandContext(ctx, c.Fzf, args...)
 	cmd.Stdin = bytes.NewReader(stdin)
@@ -22,15 +34,17 @@ func RunFzf(c *Ctx, args []string, stdin []byte, env ...string) (string, string,
 		"TMPDIR=" + c.Work, "SHELL=/bin/sh", "FZF_DEFAULT_OPTS=", "FZF_DEFAULT_COMMAND="}, env...)
 	err := cmd.Run()
 	code := 0
+	started := true
 	if err != nil {
 		if ee, ok := err.(*exec.ExitError); ok {
 			code = ee.ExitCode()
 		} else {
 			code = -1
+			started = cmd.ProcessState != nil // nil: the process never ran
 		}
 	}
 	if ctx.Err() != nil {
 		code = -1
 	}
-	return out.String(), errb.String(), code
+	return out.String(), errb.String(), code, started
 }
